@@ -110,6 +110,8 @@ def explore_config(modname, cfg_id, params, tier, canary=False, want_funcs=False
             st = ctx.stats
             for k in ('obligations', 'discharged', 'trivial', 'tolerance', 'excluded_undefined', 'facts'):
                 res[k] += st[k]
+            for k in ('normal_form', 'linear_box_bound'):
+                res[k] = res.get(k, 0) + st.get(k, 0)
             res['solver_s'] += st['solver_s']
             res['inconclusive'] += ctx.inconclusive
             res['keys'] += list(st['nontrivial_keys'])
@@ -120,6 +122,14 @@ def explore_config(modname, cfg_id, params, tier, canary=False, want_funcs=False
                 d = c.as_dict()
                 d['tb'] = getattr(c, 'tb', '')
                 d['reproduced'], d['conc_detail'] = _concrete_run(mod, cparams, c.values, c.funcs, S, canary)
+                if not d['reproduced'] and c.kind in ('eq', 'ineq') and not canary and c.values is not None \
+                        and not ctx.uf_decl:
+                    # the solver's witness may owe the violation to symbols the concrete run cannot set (contents
+                    # left behind by a library that destroys a buffer); a failure of the same assertion at the
+                    # harness' generic default inputs is a reproduction on the real code all the same
+                    ok2, det2 = _concrete_run(mod, cparams, {}, {}, S, canary)
+                    if ok2 and (c.label + ':') in det2:
+                        d['reproduced'], d['conc_detail'], d['values'] = True, det2, {}
                 res['candidates'].append(d)
             # ---- concrete shadow validation of the engine on this path
             if S.shadow and not canary and ctx.gap is None and ctx.exception is None \
@@ -450,7 +460,8 @@ def main(argv=None):
     exit_code = 0
     agg = dict(configs=0, paths=0, obligations=0, discharged=0, trivial=0, tolerance=0, facts=0,
                excluded_undefined=0, exceptions_excluded=0, infeasible=0, shadow_ok=0, shadow_skipped=0,
-               solver_s=0.0, branch_queries=0, unknown_branches=0, sampler_witnesses=0, skipped_undefined=0)
+               solver_s=0.0, branch_queries=0, unknown_branches=0, sampler_witnesses=0, skipped_undefined=0,
+               normal_form=0, linear_box_bound=0)
     keys = set()
     funcs = set()
     stubs = set()
@@ -485,7 +496,8 @@ def main(argv=None):
         agg['configs'] += 1
         for k in ('paths', 'obligations', 'discharged', 'trivial', 'tolerance', 'facts', 'excluded_undefined',
                   'exceptions_excluded', 'infeasible', 'shadow_ok', 'shadow_skipped', 'solver_s',
-                  'branch_queries', 'unknown_branches', 'sampler_witnesses', 'skipped_undefined'):
+                  'branch_queries', 'unknown_branches', 'sampler_witnesses', 'skipped_undefined', 'normal_form',
+                  'linear_box_bound'):
             agg[k] += r.get(k, 0)
         keys.update(r["keys"])
         funcs.update(r['funcs'])
@@ -580,6 +592,8 @@ def main(argv=None):
             'obligations': agg['obligations'], 'discharged': agg['discharged'],
             'discharged_syntactically_identical': agg['trivial'],
             'discharged_by_box_tolerance': agg['tolerance'],
+            'discharged_by_polynomial_normal_form_modulo_axioms': agg['normal_form'],
+            'of_the_tolerance_discharges_by_exact_linear_box_bound': agg['linear_box_bound'],
             'concrete_facts_checked': agg['facts'],
             'excluded_undefined_arithmetic': agg['excluded_undefined'] + agg['exceptions_excluded'],
             'zero_denominator_inputs_assumed_away': agg['skipped_undefined'],
